@@ -284,6 +284,7 @@ func c19(tier string, args []string) int {
 		{[]bookGame{{"e2e4", "e7e5", "g1f3"}, {"e2e4", "e7e6", "d2d4"}}, 99}, // shared prefix
 		{[]bookGame{{"e2e4", "e7e5", "e4e5"}, {"d2d4", "d7d5", "c2c4"}}, 99}, // illegal move mid-line
 		{[]bookGame{{"e2e4", "e7e5"}, {"e2e4", "c7c5"}, {"d2d4", "d7d5"}}, 3},
+		{[]bookGame{{"e2e4"}, {"e2e4"}, {"e2e4"}}, 3}, // three concurrent visits of one entry
 		{[]bookGame{{"e2e4", "e7e5"}, {"g1f3", "g8f6"}, {"e2e4", "e7e5"}, {"d2d4"}}, 2},
 	}
 	if tier != "thorough" {
@@ -291,11 +292,11 @@ func c19(tier string, args []string) int {
 		for i := 0; i < 4; i++ {
 			scenarios[i].bound = 3
 		}
-		scenarios[4].bound, scenarios[5].bound = 2, 1
+		scenarios[4].bound, scenarios[5].bound, scenarios[6].bound = 2, 2, 1
 	}
 	for si, s := range scenarios {
-		for _, format := range []openingbook.BookFormat{openingbook.Simple, openingbook.San} {
-			if (si*2+int(format))%n != shard {
+		for _, format := range []openingbook.BookFormat{openingbook.Simple, openingbook.San, openingbook.Pgn} {
+			if (si*3+int(format))%n != shard {
 				continue
 			}
 			ref := buildRef(s.games)
@@ -303,6 +304,9 @@ func c19(tier string, args []string) int {
 			fname := "Simple"
 			if format == openingbook.San {
 				content, fname = renderSan(s.games), "San"
+			}
+			if format == openingbook.Pgn {
+				content, fname = renderPgn(s.games), "Pgn"
 			}
 			dir, file := writeBookFile(content)
 			var book *openingbook.Book
